@@ -6,6 +6,7 @@ package c12
 
 import (
 	"math"
+	"strings"
 
 	"pgregory.net/rapid"
 
@@ -306,7 +307,10 @@ func nearKinds(t hs.Type) []string {
 	case hs.KList:
 		return []string{"wrong-element", "object-where-list", "scalar-where-list", "null-not-allowed", "none-not-allowed"}
 	case hs.KObj:
-		return []string{"missing-field", "extra-field", "list-where-object", "anyobj-where-object", "scalar-where-object", "null-not-allowed", "none-not-allowed"}
+		// (an extra field is not only one with an invented name: the names of the members every object has are data keys
+		// like any other when they arrive in a dynamic value)
+		return []string{"missing-field", "extra-field", "list-where-object", "anyobj-where-object", "scalar-where-object", "null-not-allowed", "none-not-allowed",
+			"extra-field:keys", "extra-field:to_json", "extra-field:to_json_indent", "extra-field:to_string", "extra-field:get", "extra-field:len"}
 	case hs.KAnyObj:
 		return []string{"list-where-object", "scalar-where-object", "null-not-allowed", "none-not-allowed"}
 	case hs.KOpt:
@@ -384,14 +388,21 @@ func (g *valGen) nearMiss(kind string, n node) (hs.Value, []PathElem, bool) {
 			}
 		}
 		return c, clonePath(n.Path, PathElem{K: "field", Field: drop}), true
-	case "extra-field":
+	case "extra-field", "extra-field:keys", "extra-field:to_json", "extra-field:to_json_indent", "extra-field:to_string", "extra-field:get", "extra-field:len":
 		o, ok := n.V.(*hs.ObjV)
 		if !ok {
 			return nil, nil, false
 		}
+		name := "zqx"
+		if i := strings.Index(kind, ":"); i >= 0 {
+			name = kind[i+1:]
+		}
+		if _, declared := o.M[name]; declared {
+			return nil, nil, false
+		}
 		c := hs.DeepCopy(o).(*hs.ObjV)
-		c.Set("zqx", hs.IntV(1))
-		return c, clonePath(n.Path, PathElem{K: "field", Field: "zqx"}), true
+		c.Set(name, hs.IntV(1))
+		return c, clonePath(n.Path, PathElem{K: "field", Field: name}), true
 	case "list-where-object":
 		l := &hs.ListV{}
 		if o, ok := n.V.(*hs.ObjV); ok {
